@@ -89,11 +89,15 @@ class Closure:
 
 
 class Big:
-    """value of a math/big.Int: python int or z3 ArithRef (Int sort)."""
-    __slots__ = ('v',)
+    """value of a math/big.Int: python int or z3 ArithRef (Int sort).
+    bv (optional, //verif:opt big_bv=1): a SIGNED two's-complement bit-vector term of any width with
+    v == BV2Int(bv, signed) - machine-word and byte-string derived values keep it, so that
+    Uint64/BitLen/And/... stay inside bit-vector reasoning."""
+    __slots__ = ('v', 'bv')
 
-    def __init__(self, v):
+    def __init__(self, v, bv=None):
         self.v = v
+        self.bv = bv
 
     def __repr__(self):
         return 'Big(%r)' % (self.v,)
